@@ -653,6 +653,40 @@ pub fn enumerate() -> Vec<Case> {
             }
         }
     }
+    // long, otherwise ordered data with one special value at every position (and all-special data):
+    // an 'already sorted' or chunked fast path must not let a NaN through
+    for f32_ in [false, true] {
+        let cast = |v: &Vec<f64>| -> Vec<X> { v.iter().map(|&x| X(if f32_ { (x as f32) as f64 } else { x })).collect() };
+        for ep in EPS.iter().filter(|e| is_float_ep(e) && !e.starts_with("Paired") && !e.starts_with("Unpaired") && **e != "quantile::ci_max_size<8>") {
+            let sorting = *ep == "quantile::ci" || *ep == "quantile::ci_max_size<1024>";
+            for n in [5usize, 33, 257, 300, 1000] {
+                let patterns: Vec<Vec<f64>> = vec![(0..n).map(|i| 1.0 + i as f64).collect(), (0..n).map(|i| (n - i) as f64).collect(), vec![2.5; n]];
+                for (pi, pat) in patterns.iter().enumerate() {
+                    if !sorting && pi > 0 {
+                        continue;
+                    }
+                    let specials: &[f64] = if sorting { &[f64::NAN] } else { &[f64::NAN, f64::INFINITY] };
+                    for &sp in specials {
+                        let step = if n <= 300 && sorting { 1 } else { 7 };
+                        for pos in (0..n).step_by(step).chain([n - 1]) {
+                            let mut d = pat.clone();
+                            d[pos] = sp;
+                            for kind in 0u8..3 {
+                                if !sorting && kind != (pos % 3) as u8 {
+                                    continue;
+                                }
+                                let qs: &[f64] = if sorting { &[0.5, 0.1] } else { &[0.5] };
+                                for &q in qs {
+                                    out.push(Case { ep: ep.to_string(), f32: f32_, a: cast(&d), b: vec![], n: 0, k: 0, q: X(q), conf: Conf::new(kind, 0.95) });
+                                }
+                            }
+                        }
+                        out.push(Case { ep: ep.to_string(), f32: f32_, a: cast(&vec![sp; n]), b: vec![], n: 0, k: 0, q: X(0.5), conf: Conf::new(0, 0.95) });
+                    }
+                }
+            }
+        }
+    }
     // count / quantile entry points
     let nks: Vec<(u64, u64)> = {
         let mut v = vec![];
@@ -707,7 +741,7 @@ pub fn enumerate() -> Vec<Case> {
 
 pub fn run(run: &mut Run) {
     run.technique = "enumeration of (entry point x invalid/degenerate input class x position x kind x level) + proptest random search with shrinking + (thorough) coverage-guided libFuzzer campaign; oracle = outcome classifier (documented error set per class, documented-panic whitelist, no NaN / inverted Ok), overflow checks on".into();
-    run.rule = "36 public entry points x input classes {empty, singleton, two equal, constant 0.1/1.1/3.3/123.456, NaN / +inf / -inf / 0 / -0 / negative / 1e±200 (1e±30 f32) / subnormal / MAX at first, middle, last position of otherwise valid data, k > n, k or n-k in {0,1,..}, n = 0, q in {<=0, >=1, NaN, inf}, mismatched lengths, over capacity} x 3 kinds x levels {0.001, 0.5, 0.95, 0.9999}, f32 and f64; non-trivial = a case whose input class is not 'valid'; distinct = (entry point, full input)".into();
+    run.rule = "36 public entry points x input classes {empty, singleton, two equal, constant 0.1/1.1/3.3/123.456, NaN / +inf / -inf / 0 / -0 / negative / 1e±200 (1e±30 f32) / subnormal / MAX at first, middle, last position of otherwise valid data, NaN (and inf) at every position of ordered / reversed / constant data of 5..1000 values, k > n, k or n-k in {0,1,..}, n = 0, q in {<=0, >=1, NaN, inf}, mismatched lengths, over capacity} x 3 kinds x levels {0.001, 0.5, 0.95, 0.9999}, f32 and f64; non-trivial = a case whose input class is not 'valid'; distinct = (entry point, full input)".into();
     let cases = enumerate();
     let cases_ref = &cases;
     let shards = 64;
